@@ -244,10 +244,16 @@ Definition modify_request_cfg (cfg : pcfg) (tag : str) (r : mreq) : outcome := r
 (* without header rules and credentials *)
 Definition modify_request (tag : str) (r : mreq) : outcome := modify_request_cfg no_cfg tag r.
 
+(* `if p.mitm { req.URL.Scheme = "https" }`: a request read from an intercepted TLS session goes to its target over
+   TLS whatever scheme the request line or X-Forwarded-Proto names.  q_tls stands for "read from an intercepted
+   session" here: the rigs have no TLS-listener configuration (there q_tls would hold without MITM). *)
+Definition mitm_https (r : mreq) : mreq := if q_tls r then set_scheme r (b "https") else r.
+
 (* proxyConn.handle up to roundTrip, for non-CONNECT requests; steps in Tables.handle_order *)
 Definition handle_step (cfg : pcfg) (tag : str) (name : str) (st : mreq * str) : outcome * str :=
   let (r, up) := st in
   if str_eqb name (b "fixRequestScheme") then (Passed (fix_request_scheme proxy_allow_http r), up)
+  else if str_eqb name (b "mitmHttps") then (Passed (mitm_https r), up)
   else if str_eqb name (b "upgradeType") then (Passed r, upgrade_type (q_hdr r))
   else if str_eqb name (b "modifyRequest") then (modify_request_cfg cfg tag r, up)
   else if str_eqb name (b "readdUpgrade") then
